@@ -1464,9 +1464,9 @@ def work_corpus(job, out):
 def plan(tier, seed):
     jobs = []
     if tier == "quick":
-        ngen, defs, nreg, trials, ncorp = 16, 80, 4, 8, 12
+        ngen, defs, nreg, trials, ncorp = 8, 160, 2, 8, 8
     else:
-        ngen, defs, nreg, trials, ncorp = 96, 640, 16, 40, 16
+        ngen, defs, nreg, trials, ncorp = 64, 960, 8, 40, 8
     for i in range(ngen):
         jobs.append({"kind": "gen", "seed": seed * 100003 + i, "defs": defs, "valid": 6, "valid_tries": 14, "ctor": 6,
                      "perturbed": 20})
